@@ -221,7 +221,13 @@ def run(chk):
     om = repo.func(NET, "NodeScanner.on_message_received", "C10.R6")
     fo = ff_for(chk, om, "C10.R6")
     apps = [c for c in find_calls(om.node, ".append") if src(c.func.value) == "self.nodes"]
-    chk.floor("R6", len(apps), 1, "append in NodeScanner.on_message_received")
+    ins_ = [c for c in find_calls(om.node, ".insert") if src(c.func.value) == "self.nodes"] + [c for c in ast.walk(om.node) if isinstance(c, ast.Call) and dotted(c.func) in ("bisect.insort", "bisect.insort_left", "bisect.insort_right", "insort")]
+    srt = [c for c in ast.walk(om.node) if isinstance(c, ast.Call) and (src(c.func) == "self.nodes.sort" or (dotted(c.func) == "sorted" and c.args and src(c.args[0]) == "self.nodes"))]
+    for c in ins_ + srt:
+        chk.bad("R6", f"{NET}:NodeScanner.on_message_received | ids listed in order of first appearance", om.loc(c),
+                f"`{src(c)[:60]}` places the id by value, not at the end: the list is no longer in the order in which the nodes were first seen")
+    if not (ins_ or srt):
+        chk.floor("R6", len(apps), 1, "append in NodeScanner.on_message_received")
     for c in apps:
         arg = c.args[0]
         g = [fo.norm(e) for e, p in fo.facts_at(fo.stmt_of(c)) if p]
